@@ -15,6 +15,7 @@ import (
 	"net"
 	"os"
 	"sort"
+	"strconv"
 	"strings"
 	"sync"
 	"syscall"
@@ -81,6 +82,7 @@ type vfWiring struct {
 	tcp      int
 	nreq     int
 	hosts    vfM // the two host tables of the configuration (service level, top level) when the case has any
+	keepCfg  vfM // keep-next-hop-route as written (YAML value and environment variable, lower-cased): TLC computes what it means
 }
 
 func (w *vfWiring) reset(id string, recv bool, udp, tcp int) {
@@ -91,6 +93,9 @@ func (w *vfWiring) reset(id string, recv bool, udp, tcp int) {
 		"proxies": []vfM{{"trans": []string{"p1.t1", "p1.t2"}, "mustrr": false, "recv": recv}}}
 	if w.hosts != nil {
 		cfg["hosts"] = w.hosts
+	}
+	if w.keepCfg != nil {
+		cfg["keep_cfg"] = w.keepCfg
 	}
 	w.tr.Emit(vfM{"ev": "reset", "case": id, "cfg": cfg})
 }
@@ -439,8 +444,10 @@ func TestVfKeepWiring(t *testing.T) {
 		}
 		os.Unsetenv("KEEP_NEXT_HOP_ROUTE")
 		time.Sleep(30 * time.Millisecond)
-		w.keep = c.keep
+		w.keep = c.keep // (kept for reading the table; the verdict uses keep_cfg)
+		w.keepCfg = vfM{"yaml": strings.ToLower(strings.Trim(c.yaml, "\"")), "env": strings.ToLower(c.env)}
 		w.reset(fmt.Sprintf("keepwiring%d-yaml[%s]-env[%s]", ci, strings.Trim(c.yaml, "\""), c.env), true, udp, tcp)
+		w.keepCfg = nil
 		cli, err := net.ListenUDP("udp", &net.UDPAddr{IP: net.ParseIP(g.ip("10.0.5.5")), Port: 0})
 		if err != nil {
 			t.Fatalf("VF-INFRA %v", err)
@@ -554,6 +561,170 @@ func TestVfHostsWiring(t *testing.T) {
 				cli.WriteToUDP(raw, &net.UDPAddr{IP: net.ParseIP(la), Port: udp})
 				w.emit("hosts-wiring alias="+al+" "+c.name, "p1.t1", g.ip("10.0.5.5"), cport, raw, vfWaitSinks(1500*time.Millisecond))
 			}
+		}
+		cli.Close()
+		ncase++
+	}
+	fmt.Printf("VF cases=%d events=%d\n", ncase, tr.n)
+}
+
+// TestVfTimeoutWiring: the dialog timeout as the configuration gives it (C15: "the configured dialog timeout").  A
+// service is started from YAML through loadConfigFromReader + startProxy with the dialogTimeout key present / absent /
+// zero and the DEFAULT_DIALOG_TIMEOUT environment variable unset / numeric / not numeric; a dialog is established through
+// one of two real UDP backends (the answer is sent from the backend's own socket), unrelated requests advance the
+// rotation, in-dialog requests probe the pin inside and beyond the lifetime.  The trace carries the configuration,
+// TLC computes the effective timeout (EffTimeout in PinsOps.tla) and judges every probe with the interval-sound rules
+// of Trace_Sticky (Focus C15).
+func TestVfTimeoutWiring(t *testing.T) {
+	tr := vfOpenTrace(t, "VERIF_TRACE")
+	defer tr.Close()
+	g := &vfGamma{base: vfIPBase(), rnd: vfRand(15)}
+	la := g.ip("10.0.0.1")
+	backs := []string{g.ip("10.0.4.1") + ":5060", g.ip("10.0.4.2") + ":5060"}
+	bsink := map[string]*vfSink{backs[0]: vfAllSinks.get(t, g.ip("10.0.4.1"), 5060), backs[1]: vfAllSinks.get(t, g.ip("10.0.4.2"), 5060)}
+	vfAllSinks.get(t, g.ip("10.0.5.5"), 5062) // where relayed responses go
+	type tc struct {
+		name   string
+		yaml   string // the dialogTimeout line's value, "" = key absent
+		env    string // "" = unset
+		probes []int  // ms after the answer
+	}
+	cases := []tc{
+		{"yaml-1", "1", "", []int{300, 1250}},
+		{"env-1", "", "1", []int{300, 1250}},
+		{"yaml-0-env-1", "0", "1", []int{300, 1250}},
+		{"yaml-1-env-50", "1", "50", []int{300, 1250}},
+		{"yaml-2-env-1", "2", "1", []int{1300, 2250}},
+		{"nothing-configured", "", "", []int{300, 1300}},
+		{"env-not-numeric", "", "1s", []int{300, 1300}},
+		{"yaml-negative-env-2", "-1", "2", []int{1300, 2250}},
+	}
+	if vfEnvInt("VERIF_NTW", len(cases)) < len(cases) {
+		cases = cases[:vfEnvInt("VERIF_NTW", len(cases))]
+	}
+	pooled := false
+	var pmu sync.Mutex
+	vfSetHook(func(ev string, kv ...interface{}) {
+		if ev == "rr.next" {
+			pmu.Lock()
+			pooled = true
+			pmu.Unlock()
+		}
+	})
+	ncase := 0
+	for ci, c := range cases {
+		udp, tcp := vfFreePort(t, la), vfFreePort(t, la)
+		name := fmt.Sprintf("tw%d.example.com", ci)
+		y := fmt.Sprintf("proxies:\n- name: %s\n", name)
+		if c.yaml != "" {
+			y += "  dialogTimeout: " + c.yaml + "\n"
+		}
+		y += fmt.Sprintf("  listens:\n  - address: %s\n    udp-port: %d\n    tcp-port: %d\n    backends:\n    - udp://%s\n    - udp://%s\n", la, udp, tcp, backs[0], backs[1])
+		if c.env != "" {
+			os.Setenv("DEFAULT_DIALOG_TIMEOUT", c.env)
+		} else {
+			os.Unsetenv("DEFAULT_DIALOG_TIMEOUT")
+		}
+		cfg, err := loadConfigFromReader(strings.NewReader(y))
+		if err != nil {
+			t.Fatalf("VF-INFRA yaml: %v\n%s", err, y)
+		}
+		for _, pc := range cfg.Proxies {
+			if err := startProxy(pc, createPreConfigRoute(pc), createPreConfigHostResolver(cfg.Hosts, pc)); err != nil {
+				t.Fatalf("VF-INFRA startProxy: %v", err)
+			}
+		}
+		os.Unsetenv("DEFAULT_DIALOG_TIMEOUT")
+		time.Sleep(50 * time.Millisecond)
+		id := fmt.Sprintf("timeoutwiring%d-%s", ci, c.name)
+		yv := -1000000 // key absent
+		if c.yaml != "" {
+			fmt.Sscanf(c.yaml, "%d", &yv)
+		}
+		ev, evalid := 0, false
+		if n, err := strconv.Atoi(c.env); err == nil {
+			ev, evalid = n, true
+		}
+		tr.Emit(vfM{"ev": "reset", "case": id, "cfg": vfM{"backs": backs, "timeout_cfg": vfM{"yaml_present": c.yaml != "", "yaml": yv, "env_set": c.env != "", "env_numeric": evalid, "env": ev}}})
+		start := time.Now()
+		us := func() int { return vfUs(time.Since(start)) }
+		cli, err := net.ListenUDP("udp", &net.UDPAddr{IP: net.ParseIP(g.ip("10.0.5.5")), Port: 0})
+		if err != nil {
+			t.Fatalf("VF-INFRA %v", err)
+		}
+		cport := cli.LocalAddr().(*net.UDPAddr).Port
+		nbr := 0
+		mkreq := func(method, cid, ft, totag string) []byte {
+			nbr++
+			hs := []vfHdr{{"Via", fmt.Sprintf("SIP/2.0/UDP %s:5062;branch=z9hG4bKtw%d-%d", g.ip("10.0.5.5"), ci, nbr)}, {"Max-Forwards", "70"},
+				{"From", "<sip:a@a.example>;tag=" + ft}, {"To", "<sip:service@" + name + ">" + totag}, {"Call-ID", cid}, {"CSeq", fmt.Sprintf("%d %s", nbr, method)}, {"Content-Length", "0"}}
+			return vfRender(method+" sip:service@"+name+" SIP/2.0", hs, nil)
+		}
+		step := func(cls string, srcIP string, srcPort int, raw []byte, send func()) []vfRecv {
+			vfAllSinks.pollAll()
+			pmu.Lock()
+			pooled = false
+			pmu.Unlock()
+			t0 := us() - 1
+			send()
+			got := vfWaitSinks(700 * time.Millisecond)
+			t1 := us() + 1
+			in := vfAlpha(raw)
+			outs := []vfM{}
+			for _, rv := range got {
+				a := fmt.Sprintf("%s:%d", rv.ip, rv.port)
+				if _, ok := bsink[a]; ok {
+					outs = append(outs, vfM{"kind": "backend", "addr": a, "ip": rv.ip, "port": rv.port, "proto": rv.proto})
+				} else if in.Kind == "req" {
+					outs = append(outs, vfM{"kind": "sink", "addr": a, "ip": rv.ip, "port": rv.port, "proto": rv.proto})
+				}
+			}
+			pmu.Lock()
+			pl := pooled
+			pmu.Unlock()
+			tr.Emit(vfM{"ev": "step", "case": id, "cls": cls, "t0": t0, "t1": t1, "src": vfM{"ip": srcIP, "port": srcPort}, "inmsg": in, "outs": outs,
+				"pooled": pl, "expires": 0, "substcls": "", "mine": in.Kind == "req", "npool": 2, "panic": "", "stuck": false})
+			return got
+		}
+		fromCli := func(raw []byte) func() {
+			return func() { cli.WriteToUDP(raw, &net.UDPAddr{IP: net.ParseIP(la), Port: udp}) }
+		}
+		cid, ft := fmt.Sprintf("tw-%d@%s", ci, g.base), fmt.Sprintf("f%d", ci)
+		inv := mkreq("INVITE", cid, ft, "")
+		got := step("timeout-wiring initial INVITE", g.ip("10.0.5.5"), cport, inv, fromCli(inv))
+		holder := ""
+		var vias []string
+		for _, rv := range got {
+			a := fmt.Sprintf("%s:%d", rv.ip, rv.port)
+			if _, ok := bsink[a]; ok {
+				holder, vias = a, vfViaLines(rv.raw)
+			}
+		}
+		if holder == "" {
+			cli.Close()
+			ncase++
+			continue // nothing delivered: the step above carries the verdict
+		}
+		var hs []vfHdr
+		for _, v := range vias {
+			hs = append(hs, vfHdr{"Via", v})
+		}
+		totag := fmt.Sprintf(";tag=b%d", ci)
+		hs = append(hs, vfHdr{"From", "<sip:a@a.example>;tag=" + ft}, vfHdr{"To", "<sip:service@" + name + ">" + totag}, vfHdr{"Call-ID", cid}, vfHdr{"CSeq", "1 INVITE"}, vfHdr{"Content-Length", "0"})
+		ans := vfRender("SIP/2.0 200 OK", hs, nil)
+		hi := strings.LastIndexByte(holder, ':')
+		answered := time.Now()
+		step("timeout-wiring answered from the backend's socket", holder[:hi], 5060, ans, func() {
+			syscall.Sendto(bsink[holder].ufd, ans, 0, vfSockaddr(la, udp))
+		})
+		for pi, at := range c.probes {
+			o := mkreq("OPTIONS", fmt.Sprintf("tw-%d-u%d@%s", ci, pi, g.base), fmt.Sprintf("u%d", pi), "")
+			step("timeout-wiring unrelated", g.ip("10.0.5.5"), cport, o, fromCli(o))
+			if d := time.Duration(at)*time.Millisecond - time.Since(answered); d > 0 {
+				time.Sleep(d)
+			}
+			p := mkreq([]string{"INFO", "UPDATE"}[pi%2], cid, ft, totag)
+			step(fmt.Sprintf("timeout-wiring in-dialog probe %d ms after the answer [%s]", at, c.name), g.ip("10.0.5.5"), cport, p, fromCli(p))
 		}
 		cli.Close()
 		ncase++
